@@ -72,7 +72,7 @@ def run_case(case):
         gi = sim.global_index_arrays(l)
         fields = [('equilibrium', feq_field), ('dense', feq_field * (1 + 0.3 * np.sin(1.0 + gi[0] * 1.3 + gi[1] * 0.7 + gi[2] * 2.1 + gi[3] * 0.9)))]
         # amplitudes far from 1: nothing may be treated as zero by an absolute tolerance (density is linear in f)
-        fields.append(('tiny', 1e-11 * (1 + 0.3 * np.sin(1.0 + gi[0] * 1.3 + gi[1] * 0.7 + gi[2] * 2.1 + gi[3] * 0.9))))
+        fields.append(('tiny', 1e-20 * (1 + 0.3 * np.sin(1.0 + gi[0] * 1.3 + gi[1] * 0.7 + gi[2] * 2.1 + gi[3] * 0.9))))
         shp = feq_field.shape
         for pos in itertools.product(*[sorted(set([0, n - 1])) for n in shp[:3]]):
             for lv in range(nv):
